@@ -505,6 +505,20 @@ inductive Spells (cfg : Cfg) : Option Nat → List Use → List Word → Prop wh
       fs.getLast?.map (·.2.1) = some last → Spells cfg (some last) us ws →
       Spells cfg l (fs.map (fun f => { arg := f.2.1, val := [], ident := true }) ++ us)
         (('-' :: fs.map (·.1)) :: ws)
+  /-- `-abk value`: flags grouped behind one dash, closed by a key whose value is the next word -/
+  | groupVal {l : Option Nat} {fs : List (Char × Nat × ArgDef)} {c : Char} {v : Word} {i : Nat} {d : ArgDef}
+      {us : List Use} {ws : List Word} :
+      (∀ f ∈ fs, f.1 ≠ '-' ∧ Resolves cfg (Key.ofChar f.1) f.2.1 f.2.2 ∧ f.2.2.vmode = .none) →
+      c ≠ '-' → Resolves cfg (Key.ofChar c) i d → d.vmode ≠ .none → PlainWord v → Spells cfg (some i) us ws →
+      Spells cfg l (fs.map (fun f => { arg := f.2.1, val := [], ident := true }) ++ { arg := i, val := v, ident := true } :: us)
+        (('-' :: (fs.map (·.1) ++ [c])) :: v :: ws)
+  /-- `-abkVALUE`: flags grouped behind one dash, closed by a key with its value glued on -/
+  | groupGlued {l : Option Nat} {fs : List (Char × Nat × ArgDef)} {c : Char} {v : Word} {i : Nat} {d : ArgDef}
+      {us : List Use} {ws : List Word} :
+      (∀ f ∈ fs, f.1 ≠ '-' ∧ Resolves cfg (Key.ofChar f.1) f.2.1 f.2.2 ∧ f.2.2.vmode = .none) →
+      c ≠ '-' → v ≠ [] → Resolves cfg (Key.ofChar c) i d → d.vmode = .required → Spells cfg (some i) us ws →
+      Spells cfg l (fs.map (fun f => { arg := f.2.1, val := [], ident := true }) ++ { arg := i, val := v, ident := true } :: us)
+        (('-' :: (fs.map (·.1) ++ c :: v)) :: ws)
   /-- a free value behind a multi-value argument -/
   | free {v : Word} {i : Nat} {d : ArgDef} {us : List Use} {ws : List Word} :
       cfg.args[i]? = some d → d.multi = true → PlainWord v → Spells cfg (some i) us ws →
@@ -814,6 +828,77 @@ theorem group_loop (cfg : Cfg) (argv : List Word) (p : Nat) (cs : Word) (us : Li
           (by simpa using hlast) e3 hdrop' (by simp at hf ⊢; omega)
         simpa using this
 
+theorem applyUses_append (cfg : Cfg) (h : HState) (a b : List Use) :
+    applyUses cfg h (a ++ b) = (applyUses cfg h a >>= fun h' => applyUses cfg h' b) := by
+  induction a generalizing h with
+  | nil => rfl
+  | cons u us ih =>
+    simp only [List.cons_append, applyUses]
+    cases applyUse cfg h u with
+    | ok x => simp only [Res.bind_ok]; exact ih x
+    | throw e => rfl
+    | oob w => rfl
+
+/-- the loop over flags at the beginning or in the middle of a group, when more characters follow:
+    afterwards the cursor is `Ready` at the character behind the flags -/
+theorem group_loop_open (cfg : Cfg) (argv : List Word) (p : Nat) (cs tail : Word) (htail : tail ≠ [])
+    (hw : argv[p]? = some ('-' :: cs)) (h1 : 1 ≤ argv.length) (R : HState → Res HState) (n : Nat) :
+    ∀ (fs : List (Char × Nat × ArgDef)) (k : Nat) (x : It) (h : HState) (fuel : Nat),
+      (∀ f ∈ fs, f.1 ≠ '-' ∧ Resolves cfg (Key.ofChar f.1) f.2.1 f.2.2 ∧ f.2.2.vmode = .none) →
+      Ready x argv p k → ('-' :: cs).drop k = fs.map (·.1) ++ tail →
+      (∀ (y : It) (h' : HState) (fuel' : Nat), Ready y argv p (k + fs.length) → n < fuel' →
+        contB cfg fuel' h' y = R h') →
+      fs.length + n < fuel →
+      contB cfg fuel h x = (applyUses cfg h (fs.map (fun f => { arg := f.2.1, val := [], ident := true })) >>= R) := by
+  have hplt := lt_of_getElem? hw
+  intro fs
+  induction fs with
+  | nil =>
+    intro k x h fuel _ hx _ cont hf
+    simp only [List.map_nil, applyUses, Res.bind_ok]
+    exact cont x h fuel (by simpa using hx) (by simpa using hf)
+  | cons f rest ih =>
+    intro k x h fuel hall hx hdrop cont hf
+    obtain ⟨hfc, hfr, hfm⟩ := hall f (List.mem_cons_self)
+    simp only [List.map_cons, List.cons_append] at hdrop
+    obtain ⟨hck, hdrop'⟩ := drop_cons_getElem? hdrop
+    have hcfg := findArg_cfg hfr
+    have hklt := lt_of_getElem? hck
+    obtain ⟨_, hB⟩ := step_ready hx hw hck hfc
+    have hl : k + 1 ≠ cs.length + 1 := by
+      have : (('-' :: cs).drop (k + 1)).length = (rest.map (·.1) ++ tail).length := by rw [hdrop']
+      simp only [List.length_drop, List.length_cons, List.length_append, List.length_map] at this
+      have : 0 < tail.length := by
+        cases tail with
+        | nil => exact absurd rfl htail
+        | cons a b => simp
+      omega
+    obtain ⟨y, e1, e2, e3⟩ := hB hl
+    cases fuel with
+    | zero => omega
+    | succ fuel =>
+      have hev : evalSingleArgument cfg h y = (handleIdentifiedArg cfg { h with lastArg := some f.2.1 } f.2.1 f.2.2 [] >>=
+            fun h' => pure (h', y, ArgResult.consumed)) := by
+        unfold evalSingleArgument
+        rw [e2]
+        simp only [Elem.setArgChar]
+        exact evalKey_novalue cfg h y _ f.2.1 f.2.2 hfr hfm
+      unfold contB
+      rw [e1]
+      simp only [Res.bind_ok]
+      have hne := ready_not_end e3 h1 hplt
+      rw [loop_step cfg fuel h y y _ hne hev]
+      simp only [List.map_cons]
+      rw [applyUses_cons_ident cfg h f.2.1 f.2.2 [] _ hcfg]
+      cases hh : handleIdentifiedArg cfg { h with lastArg := some f.2.1 } f.2.1 f.2.2 [] with
+      | throw e => rfl
+      | oob w => rfl
+      | ok h' =>
+        simp only [Res.bind_ok]
+        exact ih (k + 1) y h' fuel (fun f' hf' => hall f' (List.mem_cons_of_mem _ hf')) e3 hdrop'
+          (fun y' h'' fuel' hy' hf' => cont y' h'' fuel' (by simpa [Nat.add_assoc, Nat.add_comm 1] using hy') hf')
+          (by simp at hf ⊢; omega)
+
 /-- **Spelling theorem (loop form).**  From the boundary before a sequence of words that spells the
     uses `us`, the element loop does exactly what `applyUses` does — same destinations, counters,
     constraint lists, same exception if a rule is broken — whatever forms were chosen. -/
@@ -1075,6 +1160,110 @@ theorem spells_loop (cfg : Cfg) {l : Option Nat} {us : List Use} {ws : List Word
     · exact group_loop cfg argv p (fs.map (·.1)) us last hw h1
         (fun b' h' fuel' hb' hl' hf' => ih argv (p + 1) b' h' fuel' hb' hd' h1 hl' hf')
         fs 1 b h fuel hne hall hlast (Or.inl ⟨rfl, hb⟩) (by simp) (by simp at hf; omega)
+  | @groupVal l fs c v i d us ws hall hc hr hm hpv _ ih =>
+    intro argv p b h fuel hb hd h1 _ hf
+    obtain ⟨hw, hd'⟩ := drop_cons_getElem? hd
+    obtain ⟨hw2, hd''⟩ := drop_cons_getElem? hd'
+    have hplt := lt_of_getElem? hw2
+    have hcfg := findArg_cfg hr
+    have hf2 : fs.length + (us.length + 1) < fuel := by
+      simp only [List.length_append, List.length_map, List.length_cons] at hf; exact hf
+    rw [applyUses_append]
+    refine group_loop_open cfg argv p (fs.map (·.1) ++ [c]) [c] (by simp) hw h1
+      (fun h' => applyUses cfg h' ({ arg := i, val := v, ident := true } :: us)) (us.length + 1) fs 1 b h fuel hall
+      (Or.inl ⟨rfl, hb⟩) (by simp) ?_ (by omega)
+    intro y h' fuel' hy hf'
+    -- the closing key is the last character of the word
+    have hck : ('-' :: (fs.map (·.1) ++ [c]))[1 + fs.length]? = some c := by
+      have : 1 + fs.length = (fs.map (·.1)).length + 1 := by simp; omega
+      rw [this, List.getElem?_cons_succ, List.getElem?_append_right (by simp)]
+      simp
+    obtain ⟨hA, _⟩ := step_ready hy hw hck hc
+    obtain ⟨ai, e1, e2, e3⟩ := hA (by simp; omega)
+    cases fuel' with
+    | zero => omega
+    | succ fuel' =>
+      unfold contB
+      rw [e1]
+      simp only [Res.bind_ok]
+      have hne := atB_not_end e3 h1 (by omega)
+      have hfl : ∀ bb : Bool, AtB ({ ai with remAsValue := bb } : It) argv (p + 1) := fun bb => e3.flag bb
+      have hstep : ∃ ait2, (if d.vmode = VMode.required then ({ ai with remAsValue := true } : It) else ai).step = .ok ait2 ∧
+          ait2.cur = Elem.setValue (p + 1) v ∧ AtB ait2 argv (p + 1 + 1) := by
+        split
+        · obtain ⟨x, x1, x2, x3, _⟩ := step_plain (hfl true) hw2 hpv
+          exact ⟨x, x1, x2, x3⟩
+        · obtain ⟨x, x1, x2, x3, _⟩ := step_plain e3 hw2 hpv
+          exact ⟨x, x1, x2, x3⟩
+      obtain ⟨ait2, s1, s2, s3⟩ := hstep
+      have hne2 := atB_not_end s3 h1 (by omega)
+      have hev : evalSingleArgument cfg h' ai = (handleIdentifiedArg cfg { h' with lastArg := some i } i d v >>=
+          fun h'' => pure (h'', ait2, ArgResult.consumed)) := by
+        unfold evalSingleArgument
+        rw [e2]
+        simp only [Elem.setArgChar]
+        exact evalKey_value cfg h' ai ait2 _ i d v hr hm s1 hne2 (Or.inr (by rw [s2]; exact ⟨rfl, rfl⟩))
+      rw [loop_step cfg fuel' h' ai ait2 _ hne hev, applyUses_cons_ident cfg h' i d v us hcfg]
+      apply bind_congr_ok
+      intro h'' hh''
+      exact ih argv (p + 1 + 1) ait2 h'' fuel' s3 hd'' h1 (by rw [(handleIdentifiedArg_frame hh'').2.1]) (by omega)
+  | @groupGlued l fs c v i d us ws hall hc hv hr hm _ ih =>
+    intro argv p b h fuel hb hd h1 _ hf
+    obtain ⟨hw, hd'⟩ := drop_cons_getElem? hd
+    have hplt := lt_of_getElem? hw
+    have hcfg := findArg_cfg hr
+    have hf2 : fs.length + (us.length + 1) < fuel := by
+      simp only [List.length_append, List.length_map, List.length_cons] at hf; exact hf
+    rw [applyUses_append]
+    refine group_loop_open cfg argv p (fs.map (·.1) ++ c :: v) (c :: v) (by simp) hw h1
+      (fun h' => applyUses cfg h' ({ arg := i, val := v, ident := true } :: us)) (us.length + 1) fs 1 b h fuel hall
+      (Or.inl ⟨rfl, hb⟩) (by simp) ?_ (by omega)
+    intro y h' fuel' hy hf'
+    have hck : ('-' :: (fs.map (·.1) ++ c :: v))[1 + fs.length]? = some c := by
+      have : 1 + fs.length = (fs.map (·.1)).length + 1 := by simp; omega
+      rw [this, List.getElem?_cons_succ, List.getElem?_append_right (by simp)]
+      simp
+    obtain ⟨_, hB⟩ := step_ready hy hw hck hc
+    have hvl : 0 < v.length := by
+      cases v with
+      | nil => exact absurd rfl hv
+      | cons a b => simp
+    obtain ⟨ai, e1, e2, e3⟩ := hB (by simp; omega)
+    -- ai is inside the word, behind the key character
+    have hin : 2 ≤ 1 + fs.length + 1 ∧ ai.argv = argv ∧ ai.argIndex = p ∧ ai.charPos = 1 + fs.length + 1 ∧
+        ai.nextIsValue = false ∧ ai.acceptDashed = false ∧ ai.remAsValue = false := by
+      rcases e3 with ⟨hk, _⟩ | hh
+      · omega
+      · exact hh
+    obtain ⟨_, a1, a2, a3, a4, a5, _⟩ := hin
+    cases fuel' with
+    | zero => omega
+    | succ fuel' =>
+      unfold contB
+      rw [e1]
+      simp only [Res.bind_ok]
+      have hne : ai.atEnd = false := atEnd_false (by rw [a1]; exact h1) (by rw [a1, a2]; omega)
+      have hmne : d.vmode ≠ VMode.none := by rw [hm]; decide
+      have hlenw : 1 + fs.length + 1 ≤ ('-' :: (fs.map (·.1) ++ c :: v)).length := by simp; omega
+      have hdropw : ('-' :: (fs.map (·.1) ++ c :: v)).drop (1 + fs.length + 1) = v := by
+        have : 1 + fs.length + 1 = ((fs.map (·.1)).length + 1) + 1 := by simp; omega
+        rw [this, List.drop_succ_cons, List.drop_append]
+        simp
+      obtain ⟨ait2, s1, s2, s3, _⟩ := step_rest_value (it := { ai with remAsValue := true }) (k := 1 + fs.length + 1)
+        a1 a2 a3 hlenw hw (by simp) a5
+      rw [hdropw] at s2
+      have hne2 := atB_not_end s3 h1 (by omega)
+      have hev : evalSingleArgument cfg h' ai = (handleIdentifiedArg cfg { h' with lastArg := some i } i d v >>=
+          fun h'' => pure (h'', ait2, ArgResult.consumed)) := by
+        unfold evalSingleArgument
+        rw [e2]
+        simp only [Elem.setArgChar]
+        exact evalKey_value cfg h' ai ait2 _ i d v hr hmne (by rw [if_pos hm]; exact s1) hne2
+          (Or.inr (by rw [s2]; exact ⟨rfl, rfl⟩))
+      rw [loop_step cfg fuel' h' ai ait2 _ hne hev, applyUses_cons_ident cfg h' i d v us hcfg]
+      apply bind_congr_ok
+      intro h'' hh''
+      exact ih argv (p + 1) ait2 h'' fuel' s3 hd' h1 (by rw [(handleIdentifiedArg_frame hh'').2.1]) (by omega)
   | @free v i d us ws hcfg hmu hpv _ ih =>
     intro argv p b h fuel hb hd h1 hl hf
     obtain ⟨hw, hd'⟩ := drop_cons_getElem? hd
@@ -1151,6 +1340,26 @@ theorem spells_first {cfg : Cfg} {l : Option Nat} {us : List Use} {ws : List Wor
     | nil => simp at hlast
     | cons f rest =>
       simp only [List.map_cons, List.cons.injEq] at e
+      exact (hall f List.mem_cons_self).1 e.1
+  | @groupVal _ fs c _ _ _ _ _ hall hc _ _ _ _ =>
+    intro w hw; simp only [List.head?_cons, Option.some.injEq] at hw; subst hw
+    refine ⟨by simp, by simp, by simp, ?_⟩
+    intro e
+    simp only [List.cons.injEq, true_and] at e
+    cases fs with
+    | nil => simp only [List.map_nil, List.nil_append, List.cons.injEq, and_true] at e; exact hc e
+    | cons f rest =>
+      simp only [List.map_cons, List.cons_append, List.cons.injEq] at e
+      exact (hall f List.mem_cons_self).1 e.1
+  | @groupGlued _ fs c _ _ _ _ _ hall hc _ _ _ _ =>
+    intro w hw; simp only [List.head?_cons, Option.some.injEq] at hw; subst hw
+    refine ⟨by simp, by simp, by simp, ?_⟩
+    intro e
+    simp only [List.cons.injEq, true_and] at e
+    cases fs with
+    | nil => simp only [List.map_nil, List.nil_append, List.cons.injEq] at e; exact hc e.1
+    | cons f rest =>
+      simp only [List.map_cons, List.cons_append, List.cons.injEq] at e
       exact (hall f List.mem_cons_self).1 e.1
   | free _ _ hp _ =>
     intro w hw; simp only [List.head?_cons, Option.some.injEq] at hw; subst hw
